@@ -50,6 +50,15 @@ def projection_case(which, d=2):
     bhat = mahal.arr([xi])
     kw = dict(A=Aw, _lambda=lamw, gamma=g, gamma_proj=g / (g + 1.), i=0, v=v, num_pos=0)
     kw['pos_bhat' if which == 'pos' else 'neg_bhat'] = bhat
+    if 'self' in params:
+      # the body reads the estimator: part of the arbitrary state -- the fitted bounds are arbitrary positive numbers, gamma is the one in use
+      class _S(harness.StandIn):
+        pass
+      s_ = _S()
+      b = ctx.real('bounds', 2)
+      ctx.assume(ctx.and_(ctx.gt(b[0], 0), ctx.gt(b[1], 0)))
+      s_.bounds_, s_.gamma, s_.verbose = b, g, False
+      kw['self'] = s_
     missing = [p for p in params if p not in kw]
     if missing:
       ctx.mismatch('sliced step: free variables the harness cannot supply: %s' % missing)
